@@ -51,6 +51,19 @@ def record_one(task):
     cls = _cls()[d]
     if outcome_of(lambda: cls.check_schema(S))[0] != "ok":
         return ("rejected",)
+    if isinstance(S, dict) and rng.random() < 0.3:
+        # members the draft does not define (names of later specifications that refine a keyword, next to that keyword):
+        # they are no keywords of this draft, so they contribute nothing and are consulted by nothing
+        from harness import c10
+        names = c10.foreign_names(d)
+        for _ in range(rng.randrange(1, 3)):
+            where = rng.choice(c10.schema_positions(S))
+            comp = [c for k in c10.at_path(S, where) if k in c10.COMPANIONS for c in c10.COMPANIONS[k]
+                    if c in names or c not in c10.ALLKW]
+            if comp:
+                S = c10.insert_at(S, where, rng.choice(comp), rng.choice([0, 2, True, False, [], ["a"], {}, {"type": "null"}, "a"]))
+        if outcome_of(lambda: cls.check_schema(S))[0] != "ok":
+            return ("rejected",)
     out = []
     for j in range(3):
         I = g.instance(S)
@@ -99,7 +112,8 @@ def main(args):
                "located errors (keyword, path, schema path, context); each is compared with the real iter_errors bag. "
                "code side: for seeded random deep schemas the errors of the whole schema and of each restriction "
                "{keyword + consulted siblings} are recorded and TLC checks the union relation (with message hashes and "
-               "contexts) and equality with the specification's bag. Non-trivial: the instance yields at least one error; "
+               "contexts) and equality with the specification's bag; likewise for single-keyword universe schemas next to a "
+               "later-specification member refining that keyword (minContains next to contains, ...). Non-trivial: the instance yields at least one error; "
                "distinct by (draft, schema, instance).")
 
     def handle(t, probs):
@@ -119,7 +133,7 @@ def main(args):
             ck.violation(kind, {"draft": d, "schema": S, "instance": _INST[i], "observed_errors": got,
                                 "spec_errors": want, "source": "MC_Schema errors export"})
 
-    run_universe(ck, args, "errors" if quick else "errorsW", handle)
+    utasks = run_universe(ck, args, "errors" if quick else "errorsW", handle)
     ck.exhaustive = True
 
     n = 1200 if quick else 40000
@@ -133,6 +147,35 @@ def main(args):
                 recs.append(x[1])
                 real[x[1]["id"]] = {"draft": x[1]["d"], "schema": x[2], "instance": x[3], "observed_errors": x[4]}
                 ck.count((x[1]["d"], repr(x[2]), repr(x[3])), bool(x[4]))
+    # single-keyword universe schemas next to a member the draft does not define (a later specification's refinement of
+    # that keyword): the member is no keyword, so the union law gives it no errors and nothing may consult it
+    from harness import c10
+    fam = []
+    for d, S, exp in utasks:
+        if isinstance(S, dict) and len(S) == 1 and list(S)[0] in c10.COMPANIONS:
+            names = c10.foreign_names(d)
+            for c in c10.COMPANIONS[list(S)[0]]:
+                if c in names or c not in c10.ALLKW:
+                    for val in (0, 2, True):
+                        fam.append((d, S, dict(S, **{c: val}), exp))
+    ck.rng.shuffle(fam)
+    fid = 2 * 10 ** 7
+    for d, S, S2, exp in fam[:(250 if quick else 4000)]:
+        failing = [i for i, x in enumerate(exp) if x["errs"]]
+        pick = sorted(set(ck.rng.sample(failing, min(3, len(failing))) + ck.rng.sample(range(len(_INST)), 3)))
+        for i in pick:
+            fid += 1
+            try:
+                rec, plain = errrec.make_record(fid, d, _cls()[d], S2, _INST[i], with_restr=True)
+            except Unencodable:
+                continue
+            except Exception as e:  # noqa
+                ck.violation("raises_next_to_undefined_member", {"draft": d, "schema": S2, "instance": _INST[i],
+                                                                 "exception": "%s: %s" % (type(e).__name__, str(e)[:100])})
+                continue
+            recs.append(rec)
+            real[fid] = {"draft": d, "schema": S2, "instance": _INST[i], "observed_errors": plain}
+            ck.count((d, repr(S2), repr(_INST[i])), bool(plain))
     # reference-bearing scenarios (store documents, nested ids, a cross-document reference under not/disallow before a
     # local one): the union law must hold there too -- whole schema and every restriction run with the same store
     import copy
